@@ -301,6 +301,8 @@ def run_C03(ctx, rng, tier, res, known):
             cases = cases[:6000]
         # floats next to a boundary that is a short decimal (shortest rendering = an exact tie)
         cases += gens.gen_renderings(rng, f, 0, extra_bits=gens.tie_neighbour_bits(rng, f))
+        # floats m x 10^q of the disguised fast path whose integer product wraps / sits next to its two limits (seed C03-e)
+        cases += gens.gen_renderings(rng, f, 0, extra_bits=[gens.py_rne(f, m * 10 ** qq, 1) for m, qq in gens.gen_disguised_wq(rng, f)])
         _mod().check_pf("C03", cases, ctx.cfgs, ctx.profiles, res, known, expect_bits=True)
     # Rust's own formatter as the rendering source (implementation side only: a test, not the proof; any
     # failure is a concrete replay): shortest / 9- resp. 17-digit / Display renderings parsed back through the
@@ -878,7 +880,7 @@ def parse_l(s):
 
 def run_C12(ctx, rng, tier, res, known):
     q = tier == "quick"
-    all_cases = gens.gen_bigint(rng, 12000 if q else 300000) + gens.gen_bigint_huge(rng, 400 if q else 5000)
+    all_cases = gens.gen_bigint(rng, 12000 if q else 300000) + gens.gen_bigint_huge(rng, 400 if q else 5000) + gens.gen_bigint_compare_grid(rng)
     cfgs = [c for c in ctx.cfgs if c in ("std", "std+alloc", "std+compact", "std+compact+alloc")]
     for c in cfgs:
         cap = None if "alloc" in c else 62
